@@ -195,7 +195,8 @@ def generate(rng: np.random.Generator) -> List[List[Any]]:
             over = {k: int(rng.integers(100, 200)) for k in ["alpha", "delta", "nested"][: int(rng.integers(0, 4))]}
             ops.append(["make", target, over, "known"])
         elif r < 0.83:
-            ops.append(["make", id_, {}, "unknown"])
+            if id_ not in known:  # (short random names do collide with an id registered earlier in the run: that id is known)
+                ops.append(["make", id_, {}, "unknown"])
         elif r < 0.88:
             ops.append(["make", malformed(rng, name, ver), {}, "malformed"])
         elif r < 0.95:
